@@ -1283,7 +1283,8 @@ def _make_pianoroll(
     if end_time is None:
         N = int(np.ceil(time_div * time_margin + pr_offset.max()))
     else:
-        if end_time * time_div < pr_offset.max():
+        # (the note offsets in frames include the time margin, end_time does not)
+        if end_time * time_div < pr_offset.max() - int(time_margin * time_div):
             raise ValueError(
                 "`end_time` must be higher or equal than the last note offset time"
             )
